@@ -1018,7 +1018,8 @@ func genOddNames(r *rng) *Model {
 	ab := a + sep + b
 	if r.chance(30) {
 		// a name that ends in the characters of the wildcard suffix
-		ab = a + []string{":", "*", "::", ":*"}[r.intn(4)]
+		// (not ":*" itself: a type named "a:*" next to type "a" has the label of a's wildcard node)
+		ab = a + []string{":", "*", "::", "*:"}[r.intn(4)]
 	} else if r.chance(15) {
 		// a user type whose name carries the library's internal marker in the
 		// middle or at its end (no type "HR" / "X" exists, so no label is ambiguous)
